@@ -82,11 +82,11 @@ class RealApi:
     def is_root(self):
         return self._root
 
-    def write(self, text):
+    def write(self, text, fixed_stamp=False):
         with faults.paused():
             with open(self.target, 'w') as f:
                 f.write(text)
-            self.sb.stamp(self.target)
+            self.sb.stamp(self.target, self.sb.FIXED_STAMP if fixed_stamp else None)
         self.last_written = text
 
     def build_file(self, rel, cmp, fname, body, args, kwargs):
@@ -156,7 +156,7 @@ class RefApi:
     def is_root(self):
         return self._root
 
-    def write(self, text):
+    def write(self, text, fixed_stamp=False):
         self.written = text.encode()
 
     def build_file(self, rel, cmp, fname, body, args, kwargs):
